@@ -808,7 +808,7 @@ Proof.
 Qed.
 
 Lemma print_clean : forall t, wf_ty t = true ->
-  drop_eof (strip_trivia (print_ty t)) = print_ty t /\ ascii_names (print_ty t) = true.
+  drop_eof (strip_trivia (print_ty t)) = print_ty t /\ names_ok (print_ty t) = true.
 Proof.
   intros t Hw. pose proof (print_good_all t Hw) as Hg. split.
   - unfold drop_eof, strip_trivia.
@@ -817,8 +817,9 @@ Proof.
       destruct (negb (tok_is T_EOF x)); [reflexivity|]. rewrite andb_false_r in Hx. discriminate.
     + revert Hg. apply forallb_impl. intros x Hx. unfold tok_good in Hx.
       destruct (negb (is_trivia x)); [reflexivity|discriminate].
-  - unfold ascii_names. revert Hg. apply forallb_impl. intros x Hx. unfold tok_good in Hx.
-    apply andb_true_iff in Hx. destruct Hx as [_ Hx]. exact Hx.
+  - unfold names_ok. revert Hg. apply forallb_impl. intros x Hx. unfold tok_good in Hx.
+    apply andb_true_iff in Hx. destruct Hx as [_ Hx]. unfold name_ok.
+    destruct (negb (is_name x)); [reflexivity|]. cbn [orb] in Hx |- *. rewrite Hx. reflexivity.
 Qed.
 
 Lemma join_length : forall (A : Type) (c : A) (ls : list (list A)),
@@ -895,6 +896,32 @@ Qed.
 From Coq Require Import Strings.String Strings.Ascii.
 
 Definition B (s : string) : list N := map N_of_ascii (list_ascii_of_string s).
+
+(* the name guard of the entry points ([name_ok]): ASCII names pass (used above); a non-ASCII name passes iff
+   some rune of it upper-cases to a rune >= 0x80 (then strings.ToUpper(name) is not an ASCII string) *)
+Lemma name_ok_ascii : forall s, is_ascii s = true -> name_ok s = true.
+Proof. intros s H. unfold name_ok. rewrite H. reflexivity. Qed.
+
+(* refused: `ſtring` (U+017F LATIN SMALL LETTER LONG S upper-cases to 'S': strings.ToUpper gives "STRING", which
+   isDataTypeName knows, while the ASCII-only [to_upper] does not), and `ı` (U+0131, upper-cases to 'I') *)
+Example name_refused :
+  name_ok [197; 191; 116; 114; 105; 110; 103] = false /\ name_ok [196; 177] = false /\
+  run_cast_as [(T_IDENT, [84; 117; 112; 108; 101]); (T_LPAREN, [40]); (T_IDENT, [197; 191; 116; 114; 105; 110; 103]);
+               (T_IDENT, [68; 97; 116; 101]); (T_RPAREN, [41]); (T_EOF, [])] = OOF OofNonAsciiName.
+Proof. vm_compute. repeat split; reflexivity. Qed.
+
+(* accepted: `é` (U+00E9 -> U+00C9), `имя` (-> ИМЯ), `日本` (no case), KELVIN SIGN U+212A (already upper case:
+   unicode.ToUpper leaves it, only ToLower maps it to 'k'), a stray continuation byte (strings.ToUpper writes U+FFFD);
+   Tuple(`é` Date) then shows the element name in backticks, in both positions *)
+Example name_accepted :
+  name_ok [195; 169] = true /\ name_ok [208; 184; 208; 188; 209; 143] = true /\
+  name_ok [230; 151; 165; 230; 156; 172] = true /\ name_ok [226; 132; 170] = true /\ name_ok [97; 128] = true /\
+  let toks := [(T_IDENT, [84; 117; 112; 108; 101]); (T_LPAREN, [40]); (T_IDENT, [195; 169]);
+               (T_IDENT, [68; 97; 116; 101]); (T_RPAREN, [41]); (T_EOF, [])] in
+  run_cast_as toks = Ok (B "\'Tuple(`" ++ [195; 169] ++ B "` Date)\'") /\
+  run_cast_op toks = Ok (B "\'Tuple(`" ++ [195; 169] ++ B "` Date)\'").
+Proof. vm_compute. repeat split; reflexivity. Qed.
+
 
 (* F1  DateTime('it's'): a plain string argument is escaped like an Enum value *)
 Definition wit_F1 : ty := TApp (B "DateTime") [AStr (B "it's")].
